@@ -1,6 +1,9 @@
 package crypto
 
 import (
+	"unicode/utf8"
+
+	"github.com/jcmturner/gokrb5/v8/types"
 	"github.com/jcmturner/gokrb5/v8/zzverif"
 )
 
@@ -426,4 +429,91 @@ func VH_C08_GeneratedKey() {
 	sk, err := vhGenerateSubKey(e)
 	zzverif.Assert("generated-subkey-has-etype-key-length", zzverif.And(err == nil, len(sk.KeyValue) == p.keyLen))
 	zzverif.Reach("done")
+}
+
+// VH_C08_RC4StringToKey: RFC 4757 2: the key is MD4 of the password in UTF-16 little-endian, for every
+// valid UTF-8 password of n bytes (ASCII, Latin-1, BMP and supplementary-plane characters).
+func VH_C08_RC4StringToKey() {
+	n := zzverif.Param("n")
+	pw := zzverif.String(n)
+	zzverif.Assume(utf8.ValidString(pw))
+	e, _ := GetEtype(23)
+	k, err := e.StringToKey(pw, "ignored-salt", "")
+	var u16 []byte
+	for _, r := range pw {
+		if r < 0x10000 {
+			u16 = append(u16, byte(r), byte(r>>8))
+		} else {
+			r -= 0x10000
+			hi, lo := 0xD800+(r>>10), 0xDC00+(r&0x3FF)
+			u16 = append(u16, byte(hi), byte(hi>>8), byte(lo), byte(lo>>8))
+		}
+	}
+	zzverif.Assert("rc4-s2k-ok", err == nil)
+	zzverif.Assert("rc4-key-is-md4-of-utf16le-password", zzverif.EqBytes(k, zzverif.Hash("md4", u16)))
+	zzverif.Reach("done")
+}
+
+// ---- C04 / C08: KDC-supplied string-to-key hints of every decoded shape -----------------------------------
+
+func VH_C04_GetKeyFromPasswordShapes() {
+	var pas types.PADataSequence
+	n := zzverif.Choose(0, 2)
+	for i := 0; i < n; i++ {
+		pas = append(pas, types.PAData{PADataType: zzverif.Int32(), PADataValue: zzverif.Bytes(1)})
+	}
+	GetKeyFromPassword(zzverif.String(1), types.PrincipalName{NameString: []string{"u"}}, "R", 18, pas)
+	zzverif.Reach("returned")
+}
+
+// ---- C08: RFC 4120 5.2.7.5: PA-ETYPE-INFO2 > PA-ETYPE-INFO > PA-PW-SALT, whatever their order ---------------
+
+func VH_C08_PADataPrecedence() {
+	order, mask := zzverif.Param("order"), zzverif.Param("mask")
+	perms := [][3]int{{0, 1, 2}, {0, 2, 1}, {1, 0, 2}, {1, 2, 0}, {2, 0, 1}, {2, 1, 0}}
+	pw := zzverif.String(2)
+	saltPW, saltInfo, saltInfo2 := "P"+zzverif.String(1), "I"+zzverif.String(1), "J"+zzverif.String(1)
+	var pas types.PADataSequence
+	for _, h := range perms[order] {
+		if mask&(1<<uint(h)) == 0 {
+			continue
+		}
+		switch h {
+		case 0:
+			pas = append(pas, types.PAData{PADataType: 3, PADataValue: []byte(saltPW)}) // PA-PW-SALT
+		case 1:
+			pas = append(pas, types.PAData{PADataType: 11, PADataValue: []byte{1}}) // PA-ETYPE-INFO
+			zzverif.ScriptStub("types.ETypeInfo).Unmarshal", "val", types.ETypeInfo{{EType: 18, Salt: []byte(saltInfo)}})
+		case 2:
+			pas = append(pas, types.PAData{PADataType: 19, PADataValue: []byte{2}}) // PA-ETYPE-INFO2
+			zzverif.ScriptStub("types.ETypeInfo2).Unmarshal", "val", types.ETypeInfo2{{EType: 18, Salt: saltInfo2}})
+		}
+	}
+	cname := types.PrincipalName{NameString: []string{"u"}}
+	key, _, err := GetKeyFromPassword(pw, cname, "R", 18, pas)
+	zzverif.Assert("key-derived", err == nil)
+	want := "Ru" // default salt: realm | name components
+	switch {
+	case mask&4 != 0:
+		want = saltInfo2
+	case mask&2 != 0:
+		want = saltInfo
+	case mask&1 != 0:
+		want = saltPW
+	}
+	e, _ := GetEtype(18)
+	wk, _ := e.StringToKey(pw, want, e.GetDefaultStringToKeyParams())
+	zzverif.Assert("salt-follows-rfc4120-precedence", zzverif.EqBytes(key.KeyValue, wk))
+	zzverif.Assert("key-type-is-requested-etype", key.KeyType == 18)
+	zzverif.Reach("done")
+}
+
+// VH_C04_DecryptMessage: every ciphertext of n bytes (any content, key, usage) yields a value or an error.
+func VH_C04_DecryptMessage() {
+	et, n := zzverif.Param("etype"), zzverif.Param("n")
+	p := vhProfileOf(et)
+	e, _ := GetEtype(int32(et))
+	e.DecryptMessage(zzverif.Bytes(p.keyLen), zzverif.Bytes(n), zzverif.Uint32())
+	DecryptMessage(zzverif.Bytes(n), vhKey(int32(et), zzverif.Bytes(p.keyLen)), zzverif.Uint32())
+	zzverif.Reach("returned")
 }
